@@ -167,7 +167,7 @@ def p_c04(tr, V, st):
     """at every quiescent point of a client (no command, nothing queued to send, no complete line unread):
     number of terminal lines written == number of complete lines read; a prompt follows each terminal except 208/101"""
     cin = collections.defaultdict(bytes); cout = collections.defaultdict(bytes); quitseen = {}
-    outstanding_since = {}
+    outstanding_since = {}; seen_q = {}
     for p in tr:
         for fd, n in p.reads.items():
             if fd < 2000 and n > 0: cin[fd] += p.delivered.get(fd, {}).get('data', b'')[:n]
@@ -175,6 +175,11 @@ def p_c04(tr, V, st):
             if fd < 2000: cout[fd] += w['data']
         for fd, c in p.clients.items():
             if c['pending'] == -1 and not c['to'] and b'\n' not in c['frm']:
+                # nothing read or written for this client since its last quiescent point: the same verdict (a long stream is not
+                # split again in every idle pass)
+                key = (len(cin[fd]), len(cout[fd]), c['quit'])
+                if seen_q.get(fd) == key: continue
+                seen_q[fd] = key
                 nin = cin[fd].count(b'\n')
                 items, tail = split_out(cout[fd])
                 nterm = sum(1 for it in items if it[0] == 'line' and 100 <= it[1] < 300)
@@ -416,6 +421,11 @@ def p_c03_justified(tr, V, st):
                 if not seen:
                     flt = lambda b: re.sub(rb'\xff[\xfb-\xfe].|\xff[^\xff]', b'', b)
                     seen = any(want in flt(data) for fd, data in r['devin'].items() if fd2dev.get(fd) == di) if want else False
+                if not seen and r['com'] in (21, 22) and di == 1:
+                    # the beacon listing of the statement-coverage device names no outlet (the i-th line is the i-th plug): some line of
+                    # that device's input during the query must at least end in the state shown
+                    tail = b'ON\n' if state == 2 else b'OFF\n'
+                    seen = any(tail in data for fd, data in r['devin'].items() if fd2dev.get(fd) == di)
                 if not seen:
                     V.append(dict(sig='C03 state shown that the device did not report during this query', start=r['start'], end=r['end'], node=repr(node), state=state))
 
